@@ -20,6 +20,13 @@ def main():
         n_distinct = len(set(G.kept_examples(c)))
         sampling = G.sampling_path(c, n_distinct)
         res = {}
+        if len(sys.argv) > 2 and sys.argv[2] == 'flip':
+            kw2 = dict(kw, seed=1,
+                       full_escape=not kw.get('full_escape', False))
+            try:
+                rexpy.extract(G.supplied(c, 'list'), **kw2)
+            except Exception:
+                pass
         for form in ('list', 'dict'):
             # (any hashable is a seed; a string's hash() differs from one
             # interpreter to the next, what random.seed() makes of it not)
